@@ -1803,7 +1803,33 @@ pub (crate) fn bid128_ext_fma(
             if (q3 + e3) > (p34 + EXP_MAX_UNBIASED) && p34 <= delta - 1 {
                 // e3 > EXP_MAX_UNBIASED implies p34 <= delta-1 and e3 > EXP_MAX_UNBIASED is a necessary
                 // condition for (q3 + e3) > (p34 + EXP_MAX_UNBIASED)
-                if rnd_mode == RoundingMode::NearestEven {
+
+                // one case does not overflow in rounding to nearest: z = 10^33 * 10^(emax+1) after scaling, x * y of
+                // the opposite sign with its leading digit exactly one place below the last digit of z, and more than
+                // half a unit in that place; the sum then rounds to (10^34 - 1) * 10^emax
+                let C4_half: BID_UINT256 = if q4 <= 19 {
+                    BID_UINT256 { w: [BID_MIDPOINT64[(q4 - 1) as usize], 0, 0, 0] }
+                } else if q4 <= 38 {
+                    BID_UINT256 { w: [BID_MIDPOINT128[(q4 - 20) as usize].w[0], BID_MIDPOINT128[(q4 - 20) as usize].w[1], 0, 0] }
+                } else if q4 <= 58 {
+                    BID_UINT256 { w: [BID_MIDPOINT192[(q4 - 39) as usize].w[0], BID_MIDPOINT192[(q4 - 39) as usize].w[1], BID_MIDPOINT192[(q4 - 39) as usize].w[2], 0] }
+                } else {
+                    BID_MIDPOINT256[(q4 - 59) as usize]
+                };
+                if (rnd_mode == RoundingMode::NearestEven || rnd_mode == RoundingMode::NearestAway)
+                && p_sign != z_sign && delta == p34 + 1 && (q3 + e3) == (p34 + EXP_MAX_UNBIASED + 1)
+                && ((q3 <= 19 && C3.w[0] == BID_TEN2K64[(q3 - 1) as usize])
+                 || (q3 == 20 && C3.w[1] == 0 && C3.w[0] == BID_TEN2K64[19])
+                 || (q3 >= 21 && C3.w[1] == BID_TEN2K128[(q3 - 21) as usize].w[1]
+                  && C3.w[0] == BID_TEN2K128[(q3 - 21) as usize].w[0]))
+                && (C4.w[3] > C4_half.w[3] || (C4.w[3] == C4_half.w[3]
+                 && (C4.w[2] > C4_half.w[2] || (C4.w[2] == C4_half.w[2]
+                  && (C4.w[1] > C4_half.w[1] || (C4.w[1] == C4_half.w[1] && C4.w[0] > C4_half.w[0])))))) {
+                    res.w[1] = z_sign | 0x5fffed09bead87c0u64; // +/-MAXFP = +/-(10^34 - 1) * 10^emax
+                    res.w[0] = 0x378d8e63ffffffffu64;
+                    is_inexact_lt_midpoint = true; // as if for the absolute value
+                    *pfpsf  |= StatusFlags::BID_INEXACT_EXCEPTION;
+                } else if rnd_mode == RoundingMode::NearestEven {
                     res.w[1] = z_sign | 0x7800000000000000u64; // +/-inf
                     res.w[0] = 0x0000000000000000u64;
                     *pfpsf  |= StatusFlags::BID_INEXACT_EXCEPTION | StatusFlags::BID_OVERFLOW_EXCEPTION;
